@@ -821,21 +821,19 @@ theorem read_all (f : WavFile) (hr : 0 < f.rate) :
   have e1 : roundHalfEven ((f.rate : Int) * QTime.zero.num) QTime.zero.den = 0 := by
     show roundHalfEven ((f.rate : Int) * 0) 1 = 0
     rw [Int.mul_zero]; exact roundHalfEven_zero 1 (by omega)
-  have e2 : roundHalfEven ((f.rate : Int) * (f.duration - QTime.zero).num) (f.duration - QTime.zero).den
-      = f.nframes := by
-    show roundHalfEven ((f.rate : Int) * ((f.nframes : Int) * ((1 : Nat) : Int) - 0 * (f.rate : Int))) (f.rate * 1) = f.nframes
-    have : (f.rate : Int) * ((f.nframes : Int) * ((1 : Nat) : Int) - 0 * (f.rate : Int)) = (f.nframes : Int) * ((f.rate * 1 : Nat) : Int) := by
-      simp only [Int.natCast_mul]; grind
-    rw [this]
-    exact roundHalfEven_exact _ _ (by omega)
-  rw [e1, e2]
+  have e2 : roundHalfEven ((f.rate : Int) * f.duration.num) f.duration.den = f.nframes := by
+    show roundHalfEven ((f.rate : Int) * (f.nframes : Int)) f.rate = f.nframes
+    rw [Int.mul_comm]
+    exact roundHalfEven_exact _ _ hr
+  simp only [e1, e2]
   unfold WavFile.readAt
   have hneg : ¬ ((0 : Int) < 0 ∨ (f.nframes : Int) < 0) := by omega
   rw [if_neg hneg]
+  have hmax : max ((f.nframes : Int) - 0) 0 = f.nframes := by omega
+  rw [hmax]
   by_cases hz : f.nframes = 0
   · simp [hz]
-  · have h1 : ¬ ((f.nframes : Int) = 0) := by omega
-    have h2 : ¬ ((f.nframes : Int) < 0) := by omega
+  · have h2 : ¬ ((f.nframes : Int) < 0) := by omega
     simp [hz, h2]
 
 theorem open_file (f : WavFile) (hr : 0 < f.rate) :
@@ -888,54 +886,98 @@ theorem query_all (f : WavFile) (hr : 0 < f.rate) (hw : 0 < f.width) (hk : known
     rw [Nat.min_eq_left hle]; exact Nat.mul_mod_left _ _
   simp [hk, hl', hu]
 
-/-- on sample boundaries `readFramesAtTime` (QueryWav) and `Wav.getFrames` agree -/
-theorem query_eq_wav_on_grid (f : WavFile) (s e : QTime) (hds : 0 < s.den) (hde : 0 < e.den)
-    (k0 k1 : Nat) (h0 : s.num * f.rate = k0 * s.den) (h1 : e.num * f.rate = k1 * e.den)
-    (hle : k0 ≤ k1) (hin : k1 ≤ f.nframes) :
+/-- **`readFramesAtTime` (QueryWav, extractSubwav) and `Wav.getFrames` return the same bytes for every
+window** whose start lies inside the file (`0 ≤ s ≤ duration`, otherwise `setpos` raises) and whose end
+is not negative — on or off the sample grid, end before start (both empty), end beyond the file (both
+clamp), ragged data chunk included.  (Since the repair fedc16f both round *both* ends.) -/
+theorem query_eq_wav (f : WavFile) (s e : QTime) (hds : 0 < s.den) (hde : 0 < e.den)
+    (hs0 : 0 ≤ s.num) (hs1 : s ≤ f.duration) (he0 : 0 ≤ e.num) :
     readFramesAtTime f s e = .ok (Wav.getFrames ⟨f.width, f.rate, f.data⟩ s e) := by
+  have ha0 : 0 ≤ sampleAtTime s f.rate := roundHalfEven_nonneg _ _ hds (Int.mul_nonneg hs0 (by omega))
+  have ha1 : sampleAtTime s f.rate ≤ f.nframes := roundHalfEven_le _ _ hds _ hs1
+  have hb0 : 0 ≤ sampleAtTime e f.rate := roundHalfEven_nonneg _ _ hde (Int.mul_nonneg he0 (by omega))
+  obtain ⟨A, hA⟩ := Int.eq_ofNat_of_zero_le ha0
+  obtain ⟨B, hB⟩ := Int.eq_ofNat_of_zero_le hb0
+  have p0 : roundHalfEven ((f.rate : Int) * s.num) s.den = A := by rw [Int.mul_comm]; exact hA
+  have p1 : roundHalfEven ((f.rate : Int) * e.num) e.den = B := by rw [Int.mul_comm]; exact hB
+  have hAn : A ≤ f.nframes := by rw [hA] at ha1; omega
   have hlen : f.nframes * f.width ≤ f.data.length := Nat.div_mul_le_self _ _
-  have hk1 : k1 * f.width ≤ f.data.length := Nat.le_trans (Nat.mul_le_mul_right _ hin) hlen
-  have hk0 : k0 * f.width ≤ k1 * f.width := Nat.mul_le_mul_right _ hle
-  have es : sampleAtTime s f.rate = k0 := by
-    unfold sampleAtTime; rw [h0]; exact roundHalfEven_exact _ _ hds
-  have ee : sampleAtTime e f.rate = k1 := by
-    unfold sampleAtTime; rw [h1]; exact roundHalfEven_exact _ _ hde
-  have p0 : roundHalfEven ((f.rate : Int) * s.num) s.den = k0 := by
-    rw [Int.mul_comm]; exact es
-  have p1 : roundHalfEven ((f.rate : Int) * (e - s).num) (e - s).den = ((k1 - k0 : Nat) : Int) := by
-    show roundHalfEven ((f.rate : Int) * (e.num * (s.den : Int) - s.num * (e.den : Int))) (e.den * s.den) = _
-    have : (f.rate : Int) * (e.num * (s.den : Int) - s.num * (e.den : Int))
-        = ((k1 - k0 : Nat) : Int) * ((e.den * s.den : Nat) : Int) := by
-      rw [Int.natCast_mul, Int.natCast_sub hle]; grind
-    rw [this]
-    exact roundHalfEven_exact _ _ (Nat.mul_pos hde hds)
+  have hAw : A * f.width ≤ f.data.length := Nat.le_trans (Nat.mul_le_mul_right _ hAn) hlen
   unfold readFramesAtTime
-  rw [p0, p1]
+  simp only [p0, p1]
   unfold WavFile.readAt
   rw [if_neg (by omega)]
   unfold Wav.getFrames getB slice Wav.index indexAtTime
-  simp only [es, ee]
-  rw [← Int.natCast_mul, ← Int.natCast_mul, pyClamp_of_range _ _ (by omega) (by omega),
+  simp only [hA, hB]
+  rw [← Int.natCast_mul, ← Int.natCast_mul, pyClamp_of_range _ _ (by omega) (by omega)]
+  have hcl : pyClamp f.data.length ((B * f.width : Nat) : Int) = min (B * f.width) f.data.length := by
+    unfold pyClamp; rw [if_neg (by omega), Int.toNat_natCast]
+  rw [hcl]
+  simp only [Int.toNat_natCast]
+  have htake : f.data.take (min (B * f.width) f.data.length) = f.data.take (B * f.width) := by
+    by_cases h : B * f.width ≤ f.data.length
+    · rw [Nat.min_eq_left h]
+    · rw [Nat.min_eq_right (by omega), List.take_of_length_le (Nat.le_refl _), List.take_of_length_le (by omega)]
+  rw [htake, List.drop_take, ← Nat.sub_mul]
+  by_cases hle : B ≤ A
+  · have hm : max ((B : Int) - (A : Int)) 0 = 0 := by omega
+    have hz : B - A = 0 := by omega
+    simp [hm, hz]
+  · have hm : max ((B : Int) - (A : Int)) 0 = ((B - A : Nat) : Int) := by omega
+    have h1' : ¬ (B - A = 0) := by omega
+    have h2' : ¬ (((B - A : Nat) : Int) < 0) := by omega
+    rw [hm]
+    simp [h1', h2']
+
+/-- hence **QueryWav.getSamples = Wav.getSamples** on the same window (same samples or the same
+`struct.error` / `KeyError`) -/
+theorem query_samples_eq_wav (f : WavFile) (s e : QTime) (hds : 0 < s.den) (hde : 0 < e.den)
+    (hs0 : 0 ≤ s.num) (hs1 : s ≤ f.duration) (he0 : 0 ≤ e.num) :
+    QueryWav.getSamples f (some s) (some e) = Wav.getSamples ⟨f.width, f.rate, f.data⟩ s e := by
+  unfold QueryWav.getSamples QueryWav.getFrames Wav.getSamples
+  simp only [Option.getD_some]
+  rw [query_eq_wav f s e hds hde hs0 hs1 he0]
+
+/-- with `endTime=None` QueryWav reads from the start frame to the end of the file: nothing is dropped -/
+theorem query_to_end (f : WavFile) (hr : 0 < f.rate) (s : QTime) (hds : 0 < s.den)
+    (hs0 : 0 ≤ s.num) (hs1 : s ≤ f.duration) :
+    QueryWav.getFrames f (some s) none
+      = .ok ((f.data.take (f.nframes * f.width)).drop ((sampleAtTime s f.rate).toNat * f.width)) := by
+  have hlen : f.nframes * f.width ≤ f.data.length := Nat.div_mul_le_self _ _
+  have hB : sampleAtTime f.duration f.rate = f.nframes := by
+    show roundHalfEven ((f.nframes : Int) * (f.rate : Int)) f.rate = f.nframes
+    exact roundHalfEven_exact _ _ hr
+  unfold QueryWav.getFrames
+  simp only [Option.getD_some, Option.getD_none]
+  rw [query_eq_wav f s f.duration hds hr hs0 hs1 (by show (0 : Int) ≤ (f.nframes : Int); omega)]
+  unfold Wav.getFrames getB slice Wav.index indexAtTime
+  simp only [hB]
+  have ha0 : 0 ≤ sampleAtTime s f.rate := roundHalfEven_nonneg _ _ hds (Int.mul_nonneg hs0 (by omega))
+  have ha1 : sampleAtTime s f.rate ≤ f.nframes := roundHalfEven_le _ _ hds _ hs1
+  obtain ⟨A, hA⟩ := Int.eq_ofNat_of_zero_le ha0
+  have hAn : A ≤ f.nframes := by rw [hA] at ha1; omega
+  have hAw : A * f.width ≤ f.nframes * f.width := Nat.mul_le_mul_right _ hAn
+  rw [hA, ← Int.natCast_mul, ← Int.natCast_mul, pyClamp_of_range _ _ (by omega) (by omega),
     pyClamp_of_range _ _ (by omega) (by omega)]
   simp only [Int.toNat_natCast]
-  rw [List.drop_take, ← Nat.sub_mul]
-  by_cases hz : k1 - k0 = 0
-  · simp [hz]
-  · have h1' : ¬ (((k1 - k0 : Nat) : Int) = 0) := by omega
-    have h2' : ¬ (((k1 - k0 : Nat) : Int) < 0) := by omega
-    simp [hz, h2']
 
-/-- … but off the sample grid they differ: `readFramesAtTime` reads `round(rate*(e-s))` frames from
-`round(rate*s)`, `Wav.getFrames` slices `[round(rate*s), round(rate*e))`.
-9 samples at 8 Hz, window `[0.0625, 0.203125]` = `[0.5, 1.625]` samples -/
-theorem query_differs_off_grid :
-    readFramesAtTime ⟨1, 8, [1, 2, 3, 4, 5, 6, 7, 8, 9]⟩ ⟨1, 16⟩ ⟨13, 64⟩ = .ok [1] ∧
-    Wav.getFrames ⟨1, 8, [1, 2, 3, 4, 5, 6, 7, 8, 9]⟩ ⟨1, 16⟩ ⟨13, 64⟩ = [1, 2] := by decide
+/-- a start beyond the end of the file is rejected by `setpos` (`wave.Error`), as is a negative one -/
+theorem query_start_out_of_range (f : WavFile) (s e : QTime)
+    (h : sampleAtTime s f.rate < 0 ∨ (f.nframes : Int) < sampleAtTime s f.rate) :
+    readFramesAtTime f s e = .error .WaveError := by
+  unfold readFramesAtTime
+  have p0 : roundHalfEven ((f.rate : Int) * s.num) s.den = sampleAtTime s f.rate := by
+    unfold sampleAtTime; rw [Int.mul_comm]
+  simp only [p0]
+  unfold WavFile.readAt
+  rw [if_pos h]
 
-/-- with `endTime=None` the last sample of the file can be dropped: start `0.3125` = 2.5 samples,
-`round(2.5) = 2`, `round(9 - 2.5) = 6`, so frames 2..7 are read and frame 8 is not -/
-theorem query_drops_last_sample :
-    QueryWav.getFrames ⟨1, 8, [1, 2, 3, 4, 5, 6, 7, 8, 9]⟩ (some ⟨5, 16⟩) none = .ok [3, 4, 5, 6, 7, 8] := by decide
+/-- regression (C16-R1, fixed by fedc16f): the two windows on which the unrepaired
+`readFramesAtTime` ended one sample early -/
+theorem query_regression :
+    readFramesAtTime ⟨1, 8, [1, 2, 3, 4, 5, 6, 7, 8, 9]⟩ ⟨1, 16⟩ ⟨13, 64⟩ = .ok [1, 2] ∧
+    QueryWav.getFrames ⟨1, 8, [1, 2, 3, 4, 5, 6, 7, 8, 9]⟩ (some ⟨5, 16⟩) none = .ok [3, 4, 5, 6, 7, 8, 9] := by
+  decide
 
 /-! ## 8. non-vacuity and illustrations -/
 
